@@ -218,6 +218,16 @@ class Sim:
         else:
             self.sp("cb-sleep")
 
+    def other_thread_wait(self, cond, limit=200):
+        """A non-caller thread blocks until cond() (e.g. a slow input producer consumed from a callback): the caller
+        runs meanwhile; gives up when the caller cannot run (it may itself be waiting for this thread)."""
+        n = 0
+        while not cond() and not self.stopping and n < limit:
+            if self.current is self.main or not self._main_can_run():
+                return
+            self._handover(self.main)
+            n += 1
+
     def wait_for(self, cond, what):
         """Caller blocks until cond() (legacy backends: retrieve_result)."""
         while not cond():
